@@ -1,6 +1,6 @@
 """C04 - xDS request/ACK/NACK handling answers exactly when the protocol requires.
 
-Proof: lean/IstioModel/C04/Theorems.lean (classification for every state and request, no-loop,
+Proof: lean/IstioModel/C04/Theorems.lean + ProtocolTheorems.lean (classification for every state and request, no-loop,
 record = last request, crash freedom; SotW and delta).
 Tie: T-diff - the real xds.ShouldRespond / Send / shouldRespondDelta / sendDelta on a real
 model.Proxy vs the Lean model, same op lines, line-by-line (streams sotw, delta).
@@ -8,7 +8,7 @@ On break: harness `oracle` evaluates the property's clauses directly on the real
 """
 import os
 
-THEOREMS = ["IstioModel.C04.Theorems"]
+THEOREMS = ["IstioModel.C04.Theorems", "IstioModel.C04.ProtocolTheorems"]
 
 
 def oracle(ctx, stream, case_lines, rep):
@@ -58,8 +58,10 @@ def run(ctx):
     n = ctx.n(1500, 40000)
     ctx.diff_stream("sotw", n, oracle=oracle)
     ctx.diff_stream("delta", n, oracle=oracle)
+    # closed loop: real ShouldRespond/Send composed with the conformant client of Protocol.lean
+    ctx.diff_stream("loop", ctx.n(800, 20000), oracle=oracle)
     # the oracle also runs on every generated case (second line, independent of the model)
-    for stream in ("sotw", "delta"):
+    for stream in ("sotw", "delta", "loop"):
         g = os.path.join(ctx.work, "%s.gen.ops" % stream)
         if os.path.exists(g):
             out = g + ".verdict"
@@ -104,7 +106,8 @@ MANIFEST = {
     "level_text": ("Lean 4 proof: the SotW and delta request classification (ShouldRespond, shouldRespondDelta, Send, sendDelta, "
                    "NewWatchedResource) is modelled exactly and every clause of the statement is a theorem for all states and requests "
                    "(first request/reconnect/added names answered; ACK, NACK, stale nonce silent; no_loop; record_matches_request; "
-                   "never_crashes). The model is tied to /repo on every run by a line-by-line differential against the real functions."),
+                   "never_crashes), and quiescent_record_matches proves the last sentence for every schedule of a closed loop with a "
+                   "conformant client over FIFO channels (induction over step lists, arbitrary non-unique nonces). The model is tied to /repo on every run by a line-by-line differential against the real functions."),
     "level_note": ("Trusted: Lean kernel + {propext, Classical.choice, Quot.sound}; the hand-written model (tied by differential testing: "
                    "random request/send sequences on a real model.Proxy, ~3000 cases quick / 80000 thorough); the verif-tagged accessor "
                    "file pilot/pkg/xds/zz_verif_c04.go; Envoy assumed to be the conformant client of no_loop. gRPC framing not modelled."),
